@@ -1,6 +1,7 @@
 import Martian.VdrWalk
 import Proofs.VdrFs
 import Proofs.VdrRefuse
+import Proofs.VdrAll
 
 /-! What the walk enumerates has only real directories above it (below the
 root of the walk): `ParentsReal` for walked entries is a theorem about the
@@ -294,5 +295,29 @@ theorem not_refused {fs : List FsEnt} {chain : List Path} (h : refusedBy fs chai
   have h2 : chain.contains e.path = true := by simpa using hc
   simp [h1] at this
   exact this hc
+
+/-- a link that is elsewhere is not above anything below the root -/
+theorem elsewhere_not_above {root e p : Path} (h1 : pathIsInside root e = false) (h2 : pathIsInside e root = false)
+    (hp : pathIsInside p root = true) : ¬ ((e ++ ['/']) <+: p) := by
+  intro hpre
+  have hpe : pathIsInside p e = true := (pathIsInside_iff p e).mpr (Or.inr hpre)
+  rcases inside_comparable hpe hp with h | h
+  · rw [h2] at h; cases h
+  · rw [h1] at h; cases h
+
+theorem hfsB_spec {fs : List FsEnt} {chain : List Path} {root : Path} {t : FsTree} (h : hfsB fs chain root t = true) :
+    ∀ e ∈ fs, e.link ≠ none → e.path ∈ chain ∨ e ∈ entsBelow root t ∨
+      (pathIsInside root e.path = false ∧ pathIsInside e.path root = false) := by
+  intro e he hl
+  unfold hfsB at h
+  rw [List.all_eq_true] at h
+  have := h e he
+  simp only [Bool.or_eq_true, Bool.and_eq_true, Bool.not_eq_true', Option.isNone_iff_eq_none,
+    List.contains_eq_mem, decide_eq_true_eq] at this
+  rcases this with ((h1 | h1) | h1) | h1
+  · exact absurd h1 hl
+  · exact Or.inl h1
+  · exact Or.inr (Or.inl h1)
+  · exact Or.inr (Or.inr h1)
 
 end Martian.Vdr
